@@ -79,7 +79,7 @@ func c01Profiles(quick bool) []*bworld.Profile {
 
 func c01(r *ev.Result, tier string) {
 	r.Rule = brokerRule
-	budget := 50 * time.Second
+	budget := 120 * time.Second /* a cap for a loaded machine; idle runs need 10-20 s */
 	if !isQuick(tier) {
 		budget = 12 * time.Minute
 	}
